@@ -227,12 +227,13 @@ def run_asr(spec):
 
 
 @st.composite
-def scale_specs(draw, tier):
+def scale_specs(draw, tier):  # noqa: D103
     b = draw(base_specs(tier))
     b["q"] = draw(qpoint_strategy())
     b["log_s"] = draw(st.floats(-12, 12, allow_nan=False))
     b["log_t"] = draw(st.floats(-12, 12, allow_nan=False))
     b["model"] = draw(st.sampled_from(["random", "decay", "sym"]))
+    b["cell_by"] = draw(st.sampled_from(["symbols", "numbers"]))
     return b
 
 
@@ -264,6 +265,30 @@ def run_scaling(spec):
     ph.force_constants = (np.array(fc[p2s], order="C") if spec["compact"] else fc.copy()) * s
     ph.masses = m0 * t
     ev1 = np.linalg.eigvalsh(_D(ph, q))
+    if not np.abs(fc).max() > 0:
+        return Out(nontrivial=False, classes=["discarded_zero_model"])  # a lone atom with the sum rule: all force constants vanish
+    # the same masses given when the cell is constructed (by symbols or by atomic numbers) instead of through the setter
+    from phonopy import Phonopy
+    from phonopy.structure.atoms import PhonopyAtoms
+
+    uc = ph.unitcell
+    mu = np.array([(m0 * t)[ph.primitive.p2p_map[ph.primitive.s2p_map[k]]] for k in ph.supercell.u2s_map])
+    how = spec.get("cell_by", "symbols")
+    ckw = {"symbols": list(uc.symbols)} if how == "symbols" else {"numbers": np.array(uc.numbers)}
+    cell2 = PhonopyAtoms(cell=uc.cell, scaled_positions=uc.scaled_positions, masses=mu, **ckw)
+    if np.abs(np.asarray(cell2.masses) - mu).max() > 0:
+        return Out(ok=False, msg="PhonopyAtoms(%s=..., masses=m) reports masses different from m" % how)
+    try:
+        ph2 = Phonopy(cell2, supercell_matrix=ph.supercell_matrix, primitive_matrix=ph.primitive_matrix, store_dense_svecs=spec.get("dense_svecs", True), log_level=0)
+    except Exception:
+        ph2 = None
+    if ph2 is not None and len(ph2.primitive) == len(ph.primitive):
+        ph2.force_constants = (np.array(fc[p2s], order="C") if spec["compact"] else fc.copy()) * s
+        ev2 = np.linalg.eigvalsh(_D(ph2, q))
+        e2 = np.abs(ev2 - ev0 * (s / t)).max() / (np.abs(fc).max() / m0.min() * (s / t))
+        if not e2 < 1e-9:
+            return Out(ok=False, info={"err": e2}, msg="masses given at construction of the cell (%s=...) : eigenvalues do not scale by s/t: rel err %.3e "
+                       "for s=%.3e t=%.3e" % (how, e2, s, t))
     ev1p = np.linalg.eigvalsh(_D(ph, q, "Py"))
     want = ev0 * (s / t)
     sc = np.abs(fc).max() / m0.min() * (s / t)  # natural scale of D entries after scaling
@@ -281,7 +306,7 @@ def run_scaling(spec):
         return Out(ok=False, msg="masses setter did not propagate to the unit cell")
     big = abs(spec["log_s"]) > 6 or abs(spec["log_t"]) > 6
     return Out(ok=True, nontrivial=abs(spec["log_s"] - spec["log_t"]) > 1e-3, info={"err": e},
-               classes=[spec["model"], "extreme" if big else "moderate"])
+               classes=[spec["model"], "extreme" if big else "moderate", "cell_by:" + spec.get("cell_by", "symbols")])
 
 
 SUBCHECKS = [
